@@ -221,6 +221,8 @@ def pool_shutdown_cases() -> Any:
     return st.fixed_dictionaries({
         "pool_shutdown": st.just(True), "ack_type": st.sampled_from(["when_received", "when_executed", "when_executed", "when_saved", "when_saved"]),
         "W": st.sampled_from([0.0, 0.02, 0.05]), "n": st.integers(1, 2), "ack": st.sampled_from(["sync", "async"]),
+        # the messages carry a (generous) timeout label, and the interpreter may treat RuntimeWarning as an error (python -W error::RuntimeWarning)
+        "timeout_label": st.sampled_from([None, None, 30, "30"]), "warn_error": st.sampled_from([False, False, True]),
     })
 
 
@@ -275,7 +277,8 @@ def run_pool_shutdown(c: Dict[str, Any]) -> Outcome:
             finish = asyncio.Event()
             lt = asyncio.ensure_future(r.listen(finish))
             for k in range(n):
-                data = b.formatter.dumps(AsyncKicker("pool.blocking", b, {}).with_task_id(f"id{k}")._prepare_message(k)).message
+                lbl = {"timeout": c["timeout_label"]} if c.get("timeout_label") is not None else {}
+                data = b.formatter.dumps(AsyncKicker("pool.blocking", b, lbl).with_task_id(f"id{k}")._prepare_message(k)).message
                 if c["ack"] == "sync":
                     def ack(k: int = k) -> None:
                         events.append(("ack", k))
@@ -315,10 +318,15 @@ def run_pool_shutdown(c: Dict[str, Any]) -> Outcome:
             gate.set()
             ex.shutdown(wait=True)
 
+    import warnings
+
     loop = asyncio.new_event_loop()
     loop.set_exception_handler(lambda l, ctx: None)
     try:
-        loop.run_until_complete(main())
+        with warnings.catch_warnings():
+            if c.get("warn_error"):
+                warnings.simplefilter("error", RuntimeWarning)
+            loop.run_until_complete(main())
         pend = [t for t in asyncio.all_tasks(loop) if not t.done()]
         for t in pend:
             t.cancel()
@@ -345,7 +353,8 @@ def run_pool_shutdown(c: Dict[str, Any]) -> Outcome:
             out.add("C02.b", f"{c['ack_type']}: message {k} was acknowledged while its sync task function was still running in the thread pool "
                              f"(shutdown requested, wait_tasks_timeout={c['W']} expired); events={mine} - a worker exit now loses the message")
     out.nontrivial = c["ack_type"] != "when_received"
-    out.classes = ["pool_shutdown", "ack_type=" + c["ack_type"], "listen_returned" if info.get("returned") else "listen_still_running"]
+    out.classes = ["pool_shutdown", "ack_type=" + c["ack_type"], "listen_returned" if info.get("returned") else "listen_still_running"] + \
+                  (["timeout_label_on_sync_task"] if c.get("timeout_label") is not None else []) + (["runtime_warnings_are_errors"] if c.get("warn_error") else [])
     out.trace = {"events": [list(e) for e in ev][:20]}
     return out
 
